@@ -28,7 +28,7 @@ type Flow struct {
 
 	// set while a query evaluates its Target: what the path knows (see KnownNonNil)
 	curFacts  map[string]bool
-	curRefObj types.Object
+	curRefSet map[types.Object]bool
 	curRefNil bool
 }
 
@@ -878,21 +878,47 @@ func (f *Flow) ReachRefined(from Pt, obj types.Object, wantNil bool, isBool bool
 }
 
 // ReachRefined2 is ReachRefined with additional edges to avoid.
+//
+// The refinement follows copies: after `w = v` (also inside a parallel assignment) with v refined and unassigned
+// since, w carries the same fact; a variable drops out when it is assigned anything else. This is what lets a fact
+// about an error survive `_r = err; …; err2 := _r` – the shape an extracted helper takes after inlining.
 func (f *Flow) ReachRefined2(from Pt, obj types.Object, wantNil bool, isBool bool, target, avoid func(Pt) bool, avoidEdge func(b *cfgBlock, i int) bool) ([]Pt, bool) {
 	f.P.countPaths()
+	// sets of refined objects, interned
+	type oset = map[types.Object]bool
+	sets := map[string]oset{}
+	enc := func(m oset) string {
+		if len(m) == 0 {
+			return ""
+		}
+		ks := make([]string, 0, len(m))
+		for o := range m {
+			ks = append(ks, itoa(int(o.Pos()))+o.Name())
+		}
+		sort.Strings(ks)
+		k := strings.Join(ks, ",")
+		if _, ok := sets[k]; !ok {
+			c := oset{}
+			for o := range m {
+				c[o] = true
+			}
+			sets[k] = c
+		}
+		return k
+	}
 	type key struct {
 		b     *cfg.Block
 		i     int
-		fresh bool
+		fresh string
 	}
 	seen := map[key]bool{}
 	prev := map[key]key{}
 	type item struct {
 		pt    Pt
-		fresh bool
+		fresh string
 	}
 	var queue []item
-	push := func(from key, hasFrom bool, to Pt, fresh bool) {
+	push := func(from key, hasFrom bool, to Pt, fresh string) {
 		k := key{to.B, to.I, fresh}
 		if seen[k] {
 			return
@@ -910,20 +936,22 @@ func (f *Flow) ReachRefined2(from Pt, obj types.Object, wantNil bool, isBool boo
 			return
 		}
 		skip := map[int]bool{}
-		if it.fresh {
+		if it.fresh != "" {
 			if cond, isCase := f.Cond(pt.B); cond != nil && !isCase {
 				for si := 0; si < 2; si++ {
 					for _, fact := range atomsOnEdge(cond, si) {
-						if isBool {
-							if objOf(f.Info, fact.E) == obj && fact.T == wantNil {
-								// wantNil means "false" for bool variables: edge asserts the opposite
-								skip[si] = true
-							}
-						} else if ns, ok := nilTest(f.Info, fact.E, obj); ok {
-							// the atom `fact.E` has truth fact.T on this edge; atom true ⇔ successor 0 of the atom
-							atomSaysNil := (ns == 0) == fact.T
-							if atomSaysNil != wantNil {
-								skip[si] = true
+						for o := range sets[it.fresh] {
+							if isBool {
+								if objOf(f.Info, fact.E) == o && fact.T == wantNil {
+									// wantNil means "false" for bool variables: edge asserts the opposite
+									skip[si] = true
+								}
+							} else if ns, ok := nilTest(f.Info, fact.E, o); ok {
+								// the atom `fact.E` has truth fact.T on this edge; atom true ⇔ successor 0 of the atom
+								atomSaysNil := (ns == 0) == fact.T
+								if atomSaysNil != wantNil {
+									skip[si] = true
+								}
 							}
 						}
 					}
@@ -937,7 +965,78 @@ func (f *Flow) ReachRefined2(from Pt, obj types.Object, wantNil bool, isBool boo
 			push(self, has, Pt{s, 0}, it.fresh)
 		}
 	}
-	expand(item{from, true}, key{}, false)
+	// transfer of the refined set over a node
+	transfer := func(cur string, n ast.Node) string {
+		if cur == "" || n == nil {
+			return cur
+		}
+		set := sets[cur]
+		var add, del []types.Object
+		touched := false
+		if as, ok := n.(*ast.AssignStmt); ok && (as.Tok == token.ASSIGN || as.Tok == token.DEFINE) && len(as.Lhs) == len(as.Rhs) {
+			for i, l := range as.Lhs {
+				lid, isID := ast.Unparen(l).(*ast.Ident)
+				if !isID {
+					continue
+				}
+				lo := objOf(f.Info, lid)
+				if lo == nil {
+					continue
+				}
+				ro := types.Object(nil)
+				if rid, isRID := ast.Unparen(as.Rhs[i]).(*ast.Ident); isRID {
+					ro = f.Info.Uses[rid]
+				}
+				switch {
+				case ro != nil && set[ro]:
+					if !set[lo] {
+						if v, isVar := lo.(*types.Var); isVar && !v.IsField() {
+							add = append(add, lo)
+						}
+					}
+				case set[lo]:
+					if !assignsSame(f.Info, n, lo, wantNil, isBool) {
+						del = append(del, lo)
+					}
+				}
+				touched = true
+			}
+		}
+		if !touched || true {
+			// any other (re)definition of a refined variable: tuple assignment, range, inc/dec, declaration
+			for o := range set {
+				already := false
+				for _, d := range del {
+					already = already || d == o
+				}
+				if already {
+					continue
+				}
+				if as, ok := n.(*ast.AssignStmt); ok && (as.Tok == token.ASSIGN || as.Tok == token.DEFINE) && len(as.Lhs) == len(as.Rhs) {
+					continue // handled pairwise above
+				}
+				if assignsObj(f.Info, n, o) && !assignsSame(f.Info, n, o, wantNil, isBool) {
+					del = append(del, o)
+				}
+			}
+		}
+		if len(add) == 0 && len(del) == 0 {
+			return cur
+		}
+		ns := oset{}
+		for o := range set {
+			ns[o] = true
+		}
+		for _, o := range del {
+			delete(ns, o)
+		}
+		for _, o := range add {
+			ns[o] = true
+		}
+		return enc(ns)
+	}
+	start := enc(oset{obj: true})
+	expand(item{from, start}, key{}, false)
 	for len(queue) > 0 {
 		it := queue[0]
 		queue = queue[1:]
@@ -945,11 +1044,11 @@ func (f *Flow) ReachRefined2(from Pt, obj types.Object, wantNil bool, isBool boo
 		if avoid != nil && avoid(it.pt) {
 			continue
 		}
-		if it.fresh && !isBool {
-			f.curRefObj, f.curRefNil = obj, wantNil
+		if it.fresh != "" && !isBool {
+			f.curRefSet, f.curRefNil = sets[it.fresh], wantNil
 		}
 		hit := target != nil && target(it.pt)
-		f.curRefObj = nil
+		f.curRefSet = nil
 		if hit {
 			var path []Pt
 			k := self
@@ -963,9 +1062,7 @@ func (f *Flow) ReachRefined2(from Pt, obj types.Object, wantNil bool, isBool boo
 			}
 			return path, true
 		}
-		if n := it.pt.Node(); n != nil && it.fresh && assignsObj(f.Info, n, obj) && !assignsSame(f.Info, n, obj, wantNil, isBool) {
-			it.fresh = false
-		}
+		it.fresh = transfer(it.fresh, it.pt.Node())
 		expand(it, self, true)
 	}
 	return nil, false
@@ -1530,7 +1627,7 @@ func evalBoolUnder(e ast.Expr, val func(atom ast.Expr) (bool, bool)) (bool, bool
 // reached the point (a branch edge `v != nil` was taken and v not assigned since, or v is the refined variable of a
 // ReachRefined query for the non-nil case)? Outside a query it answers false.
 func (f *Flow) KnownNonNil(v types.Object) bool {
-	if f.curRefObj != nil && f.curRefObj == v && !f.curRefNil {
+	if f.curRefSet != nil && f.curRefSet[v] && !f.curRefNil {
 		return true
 	}
 	if f.curFacts != nil {
